@@ -34,7 +34,7 @@ PRETEXTS = [
     ("#N=", "#D="),
     ("# Name >> ", "# About >> "),
 ]
-NAME_ALPHA = ["abcdefghijklmnopqrstuvwxyz0123456789", " ", "éüß€日本𝔘", ".-_@!?()[]{}*+=/", "ABCXYZ"]
+NAME_ALPHA = ["abcdefghijklmnopqrstuvwxyz0123456789", " ", "éüß€日本𝔘", ".-_@!?()[]{}*+=/", "ABCXYZ", "#:;,\"\\'|<>~"]
 
 
 def gen_label(f, label, minlen=1, maxlen=10):
@@ -126,7 +126,9 @@ def run(ch, config, res):
         names = []
         for i in range(4):
             n = gen_label(wl, "name%d" % i)
-            while n in names or name_pre.strip() in n or desc_pre.strip() in n:
+            if name_pre.strip() in n or desc_pre.strip() in n:
+                n = n.replace("#", "h")      # a name containing a marker prefix is outside the claim
+            while n in names:
                 n = n + "x"
             names.append(n)
     fs = FiltersSet("test", name_pre, desc_pre)
@@ -180,7 +182,7 @@ def run(ch, config, res):
                     continue
                 desc = [None, gen_label(wl, "desc", 1, 14), ""][wl.weighted("hasdesc", [1, 4, 1])]
                 if desc and (name_pre.strip() in desc or desc_pre.strip() in desc):
-                    desc = "d"
+                    desc = desc.replace("#", "h")
                 rc = E.classify(lambda: fs.replacefilter(n, content, None, desc))
                 if rc[0] == "ok" and desc is not None:
                     model[find(n)].desc = desc
